@@ -502,9 +502,17 @@ def a_polarizer(rng: Any, s: Any) -> Any:
 _toast_dir: list[str] = []
 
 
-def toast_path(rng: Any, n: int, dt: Any) -> str:
-    """Writes a random non-symmetric square CSR observation matrix into the scratch directory."""
+def toast_path(rng: Any, n: int, dt: Any, ncol: int | None = None) -> str:
+    """Writes a random non-symmetric square (n x ncol if given) CSR observation matrix into the scratch directory."""
     import scipy.sparse as sp
+    if ncol is not None:
+        if not _toast_dir:
+            _toast_dir.append(tempfile.mkdtemp(prefix='fvm-toast-', dir=os.environ.get('FVM_SCRATCH')))
+        dense = np.where(rng.random((n, ncol)) < 0.6, rng.integers(1, 9, size=(n, ncol)) / 4, 0.0)
+        m = sp.csr_matrix(dense.astype(dt))
+        path = os.path.join(_toast_dir[0], f'obs_rect_{rng.integers(1 << 30)}.npz')
+        np.savez(path, format='csr', data=m.data, indices=m.indices, indptr=m.indptr, shape=np.array(m.shape))
+        return path
 
     if not _toast_dir:
         _toast_dir.append(tempfile.mkdtemp(prefix='fvm-toast-', dir=os.environ.get('FVM_SCRATCH')))
